@@ -10,7 +10,28 @@ import SarpyModel.Spec.OpenerVendor
 namespace Sarpy.Bridge.Openers
 open Sarpy.Spec.Opener
 
-theorem gen_tab_eq (v : Vendor) : Gen.Openers.tab v = tab v := by cases v <;> rfl
+/-- try the sixteen states of the four guard defects -/
+macro "find_flags" : tactic =>
+  `(tactic| first
+    | exact ⟨⟨true, true, true, true⟩, fun v => by cases v <;> rfl⟩
+    | exact ⟨⟨false, false, false, false⟩, fun v => by cases v <;> rfl⟩
+    | exact ⟨⟨false, true, true, true⟩, fun v => by cases v <;> rfl⟩
+    | exact ⟨⟨true, false, true, true⟩, fun v => by cases v <;> rfl⟩
+    | exact ⟨⟨true, true, false, true⟩, fun v => by cases v <;> rfl⟩
+    | exact ⟨⟨true, true, true, false⟩, fun v => by cases v <;> rfl⟩
+    | exact ⟨⟨false, false, true, true⟩, fun v => by cases v <;> rfl⟩
+    | exact ⟨⟨false, true, false, true⟩, fun v => by cases v <;> rfl⟩
+    | exact ⟨⟨false, true, true, false⟩, fun v => by cases v <;> rfl⟩
+    | exact ⟨⟨true, false, false, true⟩, fun v => by cases v <;> rfl⟩
+    | exact ⟨⟨true, false, true, false⟩, fun v => by cases v <;> rfl⟩
+    | exact ⟨⟨true, true, false, false⟩, fun v => by cases v <;> rfl⟩
+    | exact ⟨⟨false, false, false, true⟩, fun v => by cases v <;> rfl⟩
+    | exact ⟨⟨false, false, true, false⟩, fun v => by cases v <;> rfl⟩
+    | exact ⟨⟨false, true, false, false⟩, fun v => by cases v <;> rfl⟩
+    | exact ⟨⟨true, false, false, false⟩, fun v => by cases v <;> rfl⟩)
+
+/-- the regenerated guard tables are the specified ones, in one of the sixteen states of the four guard defects -/
+theorem gen_tab_eq : ∃ f : TabFlags, ∀ v : Vendor, Gen.Openers.tab v = tab f v := by find_flags
 
 theorem gen_complexOrder_eq : Gen.Openers.complexOrder = complexOrder := rfl
 theorem gen_productOrder_eq : Gen.Openers.productOrder = productOrder := rfl
@@ -23,7 +44,9 @@ theorem gen_entryShape_eq (e : Entry) : Gen.Openers.entryShape e = entryShape e 
 theorem gen_pins : Gen.Openers.pinsOk = true := rfl
 
 /-- the regenerated decision of every opener is the specified one -/
-theorem gen_isA_eq (v : Vendor) (w : World) (d : Desc) (deep : Decision) :
-    isA (Gen.Openers.tab v) w d deep = isA (tab v) w d deep := by rw [gen_tab_eq]
+theorem gen_isA_eq : ∃ f : TabFlags, ∀ (v : Vendor) (w : World) (d : Desc) (deep : Decision),
+    isA (Gen.Openers.tab v) w d deep = isA (tab f v) w d deep := by
+  obtain ⟨f, h⟩ := gen_tab_eq
+  exact ⟨f, fun v w d deep => by rw [h]⟩
 
 end Sarpy.Bridge.Openers
